@@ -106,6 +106,9 @@ type NodeEvent struct {
 	// node), "process" ProcessProposal (every validator), "prepare" PrepareProposal+ProcessProposal
 	// (the proposer). The responses are not judged; the calls must not influence execution.
 	Proposal string `json:"proposal,omitempty"`
+	// SlowMs: this node's disk is slow while it executes this block: every database read takes that
+	// many milliseconds of the node's wall clock, so time passes inside the ABCI calls
+	SlowMs int64 `json:"slow_ms,omitempty"`
 }
 
 // QuerySpec is one piece of query noise / list query exercised at a block boundary or mid-block.
